@@ -1,7 +1,10 @@
 //! C21: drive erg_compiler::module::graph::ModuleGraph with an operation history.
 //! case  = (op ...) where op = (0 p) add | (1 r d) inc_ref | (2 p) remove | (3 old new) rename | (4) sort
 //! universe = second element; output: per step (res state queries)
-use crate::sx::{self, Sx};
+#[allow(dead_code)]
+#[path = "../../common/sx.rs"]
+mod sx;
+use sx::Sx;
 use erg_common::pathutil::NormalizedPathBuf;
 use erg_common::tsort::TopoSortErrorKind;
 use erg_compiler::module::ModuleGraph;
@@ -121,6 +124,6 @@ fn run(case: &Sx) -> Sx {
     Sx::L(out)
 }
 
-pub fn main() {
+fn main() {
     sx::serve(run);
 }
